@@ -23,6 +23,7 @@ import (
 	"math/big"
 	"net"
 	"net/url"
+	"regexp"
 	"runtime"
 	"runtime/debug"
 	"sort"
@@ -35,6 +36,7 @@ import (
 	v3rbacpb "github.com/envoyproxy/go-control-plane/envoy/config/rbac/v3"
 	v3routepb "github.com/envoyproxy/go-control-plane/envoy/config/route/v3"
 	v3matcherpb "github.com/envoyproxy/go-control-plane/envoy/type/matcher/v3"
+	v3typepb "github.com/envoyproxy/go-control-plane/envoy/type/v3"
 	"google.golang.org/grpc"
 	"google.golang.org/grpc/codes"
 	"google.golang.org/grpc/credentials"
@@ -54,7 +56,10 @@ import (
 // c48Node is one permission or principal expression.
 //
 //	K: any | and | or | not                     (C = children)
-//	   header (N name, M exact|prefix|present, V value, I invert / present flag)
+//	   header (N name, M exact|prefix|suffix|contains|regex|range|present|
+//	           sm-exact|sm-prefix|sm-suffix|sm-contains|sm-regex (string_match),
+//	           V value ("lo:hi" for range, "true"/"false" = present_match flag),
+//	           I invert_match, F ignore_case of a string_match)
 //	   path   (M exact|prefix, V)
 //	   dip    (V cidr)  dport (P)               permissions only
 //	   rip | drip | sip (V cidr)                principals only
@@ -66,6 +71,7 @@ type c48Node struct {
 	M string     `json:"m,omitempty"`
 	V string     `json:"v,omitempty"`
 	I bool       `json:"i,omitempty"`
+	F bool       `json:"f,omitempty"`
 	P uint32     `json:"p,omitempty"`
 }
 
@@ -98,10 +104,11 @@ func (n *c48Node) String() string {
 		if n.I {
 			inv = "!"
 		}
-		if n.M == "present" {
-			return fmt.Sprintf("hdr[%s present=%v]", n.N, n.I)
+		ic := ""
+		if n.F {
+			ic = " ignore_case"
 		}
-		return fmt.Sprintf("hdr[%s %s%s %q]", n.N, inv, n.M, n.V)
+		return fmt.Sprintf("hdr[%s %s%s %q%s]", n.N, inv, n.M, n.V, ic)
 	case "path":
 		return fmt.Sprintf("path[%s %q]", n.M, n.V)
 	case "dport":
@@ -180,8 +187,8 @@ var c48Addrs = []c48Addr{{"10.1.2.3", 80}, {"11.0.0.1", 81}, {"::1", 80}}
 var c48Methods = []string{"/s/m", "/s/x"}
 
 var c48HeaderMaps = []map[string][]string{
-	{"k": {"v1"}},
-	{"k": {"v2", "w"}, "j": {"a"}},
+	{"k": {"v1"}, "n": {"5"}},
+	{"k": {"v2", "w"}, "j": {"a"}, "n": {"12"}},
 }
 
 type c48TLSState struct {
@@ -336,8 +343,55 @@ func c48Str(kind, pat, s string) bool {
 		return s == pat
 	case "prefix":
 		return strings.HasPrefix(s, pat)
+	case "suffix":
+		return strings.HasSuffix(s, pat)
+	case "contains":
+		return strings.Contains(s, pat)
+	case "regex": // the whole string must match
+		return c48Regex(pat).MatchString(s)
 	}
 	panic("c48: bad string match kind " + kind)
+}
+
+var c48RegexCache sync.Map
+
+func c48Regex(pat string) *regexp.Regexp {
+	if v, ok := c48RegexCache.Load(pat); ok {
+		return v.(*regexp.Regexp)
+	}
+	re := regexp.MustCompile(`\A(?:` + pat + `)\z`)
+	c48RegexCache.Store(pat, re)
+	return re
+}
+
+// c48ASCIILower folds ASCII letters only.
+func c48ASCIILower(s string) string {
+	b := []byte(s)
+	for i, c := range b {
+		if c >= 'A' && c <= 'Z' {
+			b[i] = c + 'a' - 'A'
+		}
+	}
+	return string(b)
+}
+
+// c48HeaderValue: the un-inverted verdict of header rule n on a PRESENT header
+// whose comma-joined value is v.
+func c48HeaderValue(n *c48Node, v string) bool {
+	switch {
+	case n.M == "range": // base-10 integer in [lo, hi)
+		var lo, hi int64
+		fmt.Sscanf(n.V, "%d:%d", &lo, &hi)
+		x, ok := new(big.Int).SetString(v, 10)
+		return ok && x.Cmp(big.NewInt(lo)) >= 0 && x.Cmp(big.NewInt(hi)) < 0
+	case strings.HasPrefix(n.M, "sm-"):
+		kind := strings.TrimPrefix(n.M, "sm-")
+		if n.F && kind != "regex" {
+			return c48Str(kind, c48ASCIILower(n.V), c48ASCIILower(v))
+		}
+		return c48Str(kind, n.V, v)
+	}
+	return c48Str(n.M, n.V, v)
 }
 
 // c48Match: does expression n hold for request q.
@@ -365,13 +419,13 @@ func c48Match(n *c48Node, q *c48Req) bool {
 		// header rules look at the comma-joined values; invert flips only when
 		// the header is present; present_match compares presence.
 		vs, present := q.MD[n.N]
-		if n.M == "present" {
-			return present == n.I
+		if n.M == "present" { // compares presence with the flag; invert_match negates that comparison
+			return (present == (n.V == "true")) != n.I
 		}
 		if !present {
 			return false
 		}
-		return c48Str(n.M, n.V, strings.Join(vs, ",")) != n.I
+		return c48HeaderValue(n, strings.Join(vs, ",")) != n.I
 	case "path":
 		return c48Str(n.M, n.V, q.Method)
 	case "dip":
@@ -454,15 +508,43 @@ func c48SM(kind, v string) *v3matcherpb.StringMatcher {
 }
 
 func c48HM(n *c48Node) *v3routepb.HeaderMatcher {
+	hm := &v3routepb.HeaderMatcher{Name: n.N, InvertMatch: n.I}
 	switch n.M {
 	case "exact":
-		return &v3routepb.HeaderMatcher{Name: n.N, InvertMatch: n.I, HeaderMatchSpecifier: &v3routepb.HeaderMatcher_ExactMatch{ExactMatch: n.V}}
+		hm.HeaderMatchSpecifier = &v3routepb.HeaderMatcher_ExactMatch{ExactMatch: n.V}
 	case "prefix":
-		return &v3routepb.HeaderMatcher{Name: n.N, InvertMatch: n.I, HeaderMatchSpecifier: &v3routepb.HeaderMatcher_PrefixMatch{PrefixMatch: n.V}}
+		hm.HeaderMatchSpecifier = &v3routepb.HeaderMatcher_PrefixMatch{PrefixMatch: n.V}
+	case "suffix":
+		hm.HeaderMatchSpecifier = &v3routepb.HeaderMatcher_SuffixMatch{SuffixMatch: n.V}
+	case "contains":
+		hm.HeaderMatchSpecifier = &v3routepb.HeaderMatcher_ContainsMatch{ContainsMatch: n.V}
+	case "regex":
+		hm.HeaderMatchSpecifier = &v3routepb.HeaderMatcher_SafeRegexMatch{SafeRegexMatch: &v3matcherpb.RegexMatcher{Regex: n.V}}
+	case "range":
+		var lo, hi int64
+		fmt.Sscanf(n.V, "%d:%d", &lo, &hi)
+		hm.HeaderMatchSpecifier = &v3routepb.HeaderMatcher_RangeMatch{RangeMatch: &v3typepb.Int64Range{Start: lo, End: hi}}
 	case "present":
-		return &v3routepb.HeaderMatcher{Name: n.N, HeaderMatchSpecifier: &v3routepb.HeaderMatcher_PresentMatch{PresentMatch: n.I}}
+		hm.HeaderMatchSpecifier = &v3routepb.HeaderMatcher_PresentMatch{PresentMatch: n.V == "true"}
+	case "sm-exact", "sm-prefix", "sm-suffix", "sm-contains", "sm-regex":
+		sm := &v3matcherpb.StringMatcher{IgnoreCase: n.F}
+		switch n.M {
+		case "sm-exact":
+			sm.MatchPattern = &v3matcherpb.StringMatcher_Exact{Exact: n.V}
+		case "sm-prefix":
+			sm.MatchPattern = &v3matcherpb.StringMatcher_Prefix{Prefix: n.V}
+		case "sm-suffix":
+			sm.MatchPattern = &v3matcherpb.StringMatcher_Suffix{Suffix: n.V}
+		case "sm-contains":
+			sm.MatchPattern = &v3matcherpb.StringMatcher_Contains{Contains: n.V}
+		case "sm-regex":
+			sm.MatchPattern = &v3matcherpb.StringMatcher_SafeRegex{SafeRegex: &v3matcherpb.RegexMatcher{Regex: n.V}}
+		}
+		hm.HeaderMatchSpecifier = &v3routepb.HeaderMatcher_StringMatch{StringMatch: sm}
+	default:
+		panic("c48: header kind " + n.M)
 	}
-	panic("c48: header kind " + n.M)
+	return hm
 }
 
 func c48PermProto(n *c48Node) *v3rbacpb.Permission {
@@ -561,12 +643,44 @@ func c48SharedLeaves() []*c48Node {
 		{K: "any"},
 		{K: "header", N: "k", M: "exact", V: "v1"},
 		{K: "header", N: "k", M: "prefix", V: "v2,"},
-		{K: "header", N: "j", M: "present", I: true},
-		{K: "header", N: "j", M: "present", I: false},
+		{K: "header", N: "j", M: "present", V: "true"},
+		{K: "header", N: "j", M: "present", V: "false"},
 		{K: "header", N: "j", M: "exact", V: "b", I: true},
 		{K: "path", M: "exact", V: "/s/m"},
 		{K: "path", M: "prefix", V: "/s/"},
 	}
+}
+
+// c48HeaderLeaves: one rule per HeaderMatcher specifier the engine supports
+// (and per string_match pattern kind, with and without ignore_case), on a
+// header that is present in every request with a matching value in one header
+// map and a non-matching value in the other (k, n) and on a header that is
+// absent from one header map (j); each with invert_match false and true.
+func c48HeaderLeaves() []*c48Node {
+	base := []c48Node{
+		{M: "exact", N: "k", V: "v1"}, {M: "exact", N: "j", V: "a"},
+		{M: "prefix", N: "k", V: "v2,"}, {M: "prefix", N: "j", V: "a"},
+		{M: "suffix", N: "k", V: ",w"}, {M: "suffix", N: "j", V: "b"},
+		{M: "contains", N: "k", V: "2,"}, {M: "contains", N: "j", V: "a"},
+		{M: "regex", N: "k", V: "v[0-9]"}, {M: "regex", N: "j", V: "a|b"},
+		{M: "range", N: "n", V: "0:10"}, {M: "range", N: "n", V: "5:12"}, {M: "range", N: "j", V: "0:10"},
+		{M: "present", N: "k", V: "true"}, {M: "present", N: "k", V: "false"},
+		{M: "present", N: "j", V: "true"}, {M: "present", N: "j", V: "false"},
+		{M: "sm-exact", N: "k", V: "v1"}, {M: "sm-exact", N: "j", V: "a"}, {M: "sm-exact", N: "k", V: "V1", F: true}, {M: "sm-exact", N: "k", V: "V1"},
+		{M: "sm-prefix", N: "k", V: "v2"}, {M: "sm-prefix", N: "j", V: "A", F: true},
+		{M: "sm-suffix", N: "k", V: "W", F: true}, {M: "sm-suffix", N: "j", V: "a"},
+		{M: "sm-contains", N: "k", V: "2,w"}, {M: "sm-contains", N: "j", V: "A", F: true},
+		{M: "sm-regex", N: "k", V: "v[0-9]"}, {M: "sm-regex", N: "j", V: "[a-c]"},
+	}
+	var out []*c48Node
+	for _, b := range base {
+		for _, inv := range []bool{false, true} {
+			n := b
+			n.K, n.I = "header", inv
+			out = append(out, &n)
+		}
+	}
+	return out
 }
 
 var c48CIDRs = []string{"10.0.0.0/8", "::/0", "10.1.2.3/32"}
@@ -825,7 +939,7 @@ func c48ChainMenu() []c48Policy {
 		{Perms: []*c48Node{{K: "header", N: "k", M: "exact", V: "v1"}, {K: "not", C: []*c48Node{{K: "dip", V: "10.1.2.3/32"}}}},
 			Princs: []*c48Node{{K: "authn", M: "prefix", V: "spiffe://"}, {K: "drip", V: "10.1.2.3/32"}}},
 		{Perms: []*c48Node{{K: "and", C: []*c48Node{{K: "path", M: "prefix", V: "/s/"}, {K: "dport", P: 81}}}},
-			Princs: []*c48Node{{K: "or", C: []*c48Node{{K: "authn", M: "exact", V: "d.example"}, {K: "header", N: "j", M: "present", I: true}}}}},
+			Princs: []*c48Node{{K: "or", C: []*c48Node{{K: "authn", M: "exact", V: "d.example"}, {K: "header", N: "j", M: "present", V: "true"}}}}},
 		{Perms: []*c48Node{{K: "dip", V: "::/0"}}, Princs: []*c48Node{{K: "not", C: []*c48Node{{K: "authn", M: "exact", V: "CN=subj"}}}}},
 	}
 }
@@ -860,10 +974,11 @@ func TestVerif_C48_RBAC(t *testing.T) {
 	r.Rule(P, fmt.Sprintf("exhaustive layers, every chain evaluated on all %d requests (2 methods x 2 header maps x 3 peer x 3 local addresses x 6 TLS states). "+
 		"(T2) every permission tree and every principal tree of depth <= 2 over the leaf menu (%d permission / %d principal leaves; not(x), and/or over every ORDERED child list of length 0..2) as the sole expression of a one-policy ALLOW engine and of a one-policy DENY engine. "+
 		"(T3, thorough only) the same for every tree of depth <= 3 whose children are depth<=2 trees, top-level and/or child pairs taken unordered, ALLOW engine. "+
+		"(H) %d header rules = every HeaderMatcher specifier (exact, prefix, suffix, contains, safe_regex, range, present, string_match{exact,prefix,suffix,contains,regex; ignore_case}) x invert_match in {false,true} on headers that are absent / matching / non-matching across the header maps: each as sole permission and sole principal of an ALLOW and a DENY engine, and every depth<=2 permission tree over {any}+these rules. "+
 		"(P) every one-policy ALLOW engine whose policy has a list of 0..2 permissions and a list of 0..2 principals over the leaves (pairs unordered in quick, ordered in thorough); thorough adds lists of 0..2 (unordered pairs) over ALL depth<=2 trees on one side against a 2-list menu on the other. "+
 		"(C) every chain of 0..2 engines x {ALLOW,DENY} x every ordered list of 0..2 policies from a %d-policy menu. "+
 		"non-trivial = a chain whose reference decision is not constant over the request set (every enumerated chain is structurally distinct)",
-		len(x.reqs), len(permLeaves), len(princLeaves), len(menu)))
+		len(x.reqs), len(permLeaves), len(princLeaves), len(c48HeaderLeaves()), len(menu)))
 
 	layer := func(name string, n int, f func(i int, st *c48Stats)) {
 		st := x.par(n, f)
@@ -904,6 +1019,26 @@ func TestVerif_C48_RBAC(t *testing.T) {
 			x.check("T3_princ", i, c48One(false, anyL, []*c48Node{c48NextAt(princLeaves, princL2, i, false)}), st, "")
 		})
 	}
+
+	// ---- (H) header-rule layers -------------------------------------------
+	// every HeaderMatcher specifier x invert_match: as sole permission and as
+	// sole principal (ALLOW and DENY engine), and inside every depth<=2
+	// permission tree over {any} + the header rules (ALLOW engine).
+	hdrLeaves := c48HeaderLeaves()
+	nh := len(hdrLeaves)
+	layer("H_leaf", 4*nh, func(i int, st *c48Stats) {
+		l := []*c48Node{hdrLeaves[i/4]}
+		if i%2 == 0 {
+			x.check("H_leaf", i, c48One(i%4 >= 2, l, anyL), st, "")
+		} else {
+			x.check("H_leaf", i, c48One(i%4 >= 2, anyL, l), st, "")
+		}
+	})
+	hdrSet := append([]*c48Node{{K: "any"}}, hdrLeaves...)
+	hdrL2 := c48Level2(hdrSet)
+	layer("H_tree", len(hdrL2), func(i int, st *c48Stats) {
+		x.check("H_tree", i, c48One(false, []*c48Node{hdrL2[i]}, anyL), st, "")
+	})
 
 	// ---- (P) policy layers -----------------------------------------------
 	npl, nql := c48ListCount(len(permLeaves), th), c48ListCount(len(princLeaves), th)
@@ -969,7 +1104,7 @@ func TestVerif_C48_RBAC(t *testing.T) {
 		r.Set(P, "perm_trees_depth2", len(permL2))
 		r.Set(P, "princ_trees_depth2", len(princL2))
 	}
-	r.Assume(P, "header rules use the semantics of the sibling property C47 (comma-joined values, invert only when present, present_match compares presence); CIDR membership is per address family; a TLS peer without certificate has the empty principal name (gRFC A41)")
+	r.Assume(P, "header rules use the semantics of the sibling property C47 (comma-joined values, invert flips only when the header is present, regex is full-string, range = base-10 integer in [start,end), ignore_case folds ASCII letters; present_match compares presence with its flag and invert_match negates that comparison, as in Envoy); CIDR membership is per address family; a TLS peer without certificate has the empty principal name (gRFC A41)")
 	r.Assume(P, "the context is assembled by the harness from the same four calls grpc.Server makes (SetConnection, peer.NewContext, NewIncomingContext, NewContextWithServerTransportStream), not by a running server; certificates are hand-built x509.Certificate values")
 	r.Assume(P, "layers compose: trees deeper than the bound, lists longer than 2, and products of deep trees on both sides of a policy or inside multi-engine chains are outside the enumerated space")
 }
